@@ -2,8 +2,11 @@ import Generated.C18Facts
 import Req.Client.Result
 /-!
 C18 bridge: the facts regenerated from /repo by tools/gofacts (c18.go) equal the model's.
-A source edit that moves a threshold, reorders the ResultState constants, changes an auto-read
-guard or a 204 guard changes `Generated/C18Facts.lean` and breaks one of these proofs.
+A source edit that moves a threshold, reorders the ResultState constants, changes or drops an
+auto-read guard or the 204 special-casing changes `Generated/C18Facts.lean` and breaks one of
+these proofs. The proofs do not depend on the SHAPE of the generated decision tree (if-chain,
+guard clauses, switch, hoisted locals, inlined helper all give trees that `split` + `omega`
+handle alike).
 -/
 namespace Bridge.C18
 open Req.Result Generated.C18Facts
@@ -18,37 +21,45 @@ def code : ResultState → Nat
 theorem states_distinct : successState ≠ errorState ∧ errorState ≠ unknownState ∧ successState ≠ unknownState := by
   decide
 
-/-- `defaultResultStateChecker` as translated from the source = the model, for EVERY integer. -/
+/-- the model's default checker, numbered like the source -/
+theorem code_default (c : Int) : code (Req.Result.defaultChecker c) =
+    if c > 199 ∧ c < 300 then successState else if c > 399 then errorState else unknownState := by
+  unfold Req.Result.defaultChecker
+  by_cases h1 : c > 199 ∧ c < 300
+  · simp [h1, code]
+  · by_cases h2 : c > 399 <;> simp [h1, h2, code]
+
+macro "bridge_cases" : tactic => `(tactic| (
+  repeat' split
+  all_goals first
+    | rfl
+    | (exfalso
+       simp only [Bool.and_eq_true, Bool.or_eq_true, decide_eq_true_eq, Bool.not_eq_true', Bool.not_eq_true,
+         decide_eq_false_iff_not, not_and, not_or, Bool.and_eq_false_iff, Bool.or_eq_false_iff, gt_iff_lt, ge_iff_le] at *
+       omega)))
+
+/-- `defaultResultStateChecker` as evaluated from the source = the model, for EVERY integer. -/
 theorem default_checker_agrees (c : Int) : Generated.C18Facts.defaultChecker c = code (Req.Result.defaultChecker c) := by
-  unfold Generated.C18Facts.defaultChecker Req.Result.defaultChecker
-  by_cases h1 : c > 199 <;> by_cases h2 : c < 300 <;> by_cases h3 : c > 399 <;>
-    simp [h1, h2, h3, code, successState, errorState, unknownState]
+  rw [code_default]; unfold Generated.C18Facts.defaultChecker
+  simp only [successState, errorState, unknownState]
+  bridge_cases
 
-def evalOp : Op → Int → Int → Bool
-  | .gt, a, b => decide (a > b)
-  | .lt, a, b => decide (a < b)
-  | .ge, a, b => decide (a ≥ b)
-  | .le, a, b => decide (a ≤ b)
-  | .eq, a, b => decide (a = b)
-  | .ne, a, b => decide (a ≠ b)
-
-def evalConj (l : List (Op × Int)) (c : Int) : Bool := l.all fun (op, v) => evalOp op c v
-
-/-- every auto-read block (Client.roundTrip; the digest middleware once repaired) is guarded by
-exactly the model's `autoReadStatus` -/
+/-- every auto-read block (Client.roundTrip; the digest middleware) tests exactly the model's
+boundary `autoReadStatus c ↔ c ≥ 200`, and Client.roundTrip has one -/
 theorem auto_read_sites_shape :
-    autoReadSites ≠ [] ∧ ∀ site ∈ autoReadSites, site.2 = [(.gt, 199)] := by
+    (∃ site ∈ autoReadSites, site.1 = "roundTrip") ∧ ∀ site ∈ autoReadSites, site.2 = [200] := by
   decide
 
-theorem auto_read_guard_agrees (site : String × List (Op × Int)) (h : site ∈ autoReadSites) (c : Int) :
-    evalConj site.2 c = autoReadStatus c := by
-  rw [auto_read_sites_shape.2 site h]
-  simp [evalConj, evalOp, autoReadStatus]
+theorem auto_read_boundary (c : Int) : autoReadStatus c = decide (c ≥ 200) := by
+  simp only [autoReadStatus]
+  by_cases h : c > 199
+  · have : c ≥ 200 := by omega
+    simp [h, this]
+  · have : ¬ c ≥ 200 := by omega
+    simp [h, this]
 
-/-- `parseResponseBody`: the success arm binds only when the status is not `noContent`, the error
-arm returns early exactly on `noContent`. -/
-theorem parse_arms_shape :
-    parseSuccessArm = ("bind", [(.ne, noContent)]) ∧ parseErrorArm = ("return", [(.eq, noContent)]) := by
+/-- `parseResponseBody` special-cases exactly the model's `noContent` status. -/
+theorem parse_points_shape : parseStatusPoints = [noContent] := by
   decide
 
 end Bridge.C18
